@@ -4,16 +4,15 @@ import (
 	"fmt"
 	"go/token"
 	"go/types"
-	"strings"
 
 	"golang.org/x/tools/go/ssa"
 )
 
 func init() {
 	register(&propDef{
-		ID:    "C04",
-		Title: "A client sees its own location's records plus untagged ones, nothing else",
-		Run:   runC04,
+		ID:          "C04",
+		Title:       "A client sees its own location's records plus untagged ones, nothing else",
+		Run:         runC04,
 		Explanation: "Structural necessary conditions of location isolation, decided on SSA: (keyloc) the location component of every resource-record key built by the readers comes only from the LocID of the reader method's own location parameter or from EmptyLocation, helper functions pass their location parameter through, and the handler hands every helper the one location FindLocation returned; (cache-exact) an exact get is never served from a closest-key cache entry of another key; (untagged) every walk consults the untagged key on each iteration — unconditionally, or skipped only when both the NS and SOA flags are already known, or (closest-key reader) exactly when the located lookup landed on the same name with another location; (cache-key) the response cache key separates locations without ambiguity. Non-interference over all edits is not decided.",
 	})
 }
@@ -348,100 +347,7 @@ func c04Untagged(c *Ctx) {
 	c.Check(rule, fnName(find)+"|untagged-retry", ok, second.Pos(), fmt.Sprintf("retry with the EmptyLocation key: %v; guard kinds: %v; other conditions: %d (any other outcome of the located lookup proves the untagged key absent; any extra condition hides untagged records)", emptyCopied, keysOf(kinds), other))
 }
 
-// c04CacheKey: the textual cache key separates the two location bytes unambiguously.
+// c04CacheKey: the textual cache key separates its components unambiguously (see keyinj.go).
 func c04CacheKey(c *Ctx) {
-	rule := "C04.cache-key"
-	c.Rule(rule, "the response cache key renders the location id with a fixed-width verb (every numeric verb of the Sprintf format that precedes the name has an explicit width/precision), so that two different locations can never produce the same key text; or the location bytes are placed in the key as raw bytes")
-	serve := c.Func("dnsserver", "(*FBDNSDB).ServeDNSWithRCODE")
-	var get *ssa.Call
-	for _, ci := range callInstrs(serve) {
-		if call, ok := ci.(*ssa.Call); ok && isLruMethod(calleeOf(call.Common()), "Get") {
-			get = call
-		}
-	}
-	if get == nil {
-		c.Undecided(rule, fnName(serve)+"|get", serve.Pos(), "no lru.Get found")
-		return
-	}
-	fLoc := c.Field("db", "Location", "LocID")
-	ok := false
-	detail := "the key is not built by a recognised form (fixed-width Sprintf verbs or raw location bytes)"
-	// values to search: the key itself and, one level deep, what module helpers in its slice return
-	roots := []ssa.Value{get.Call.Args[1]}
-	for v := range backSlice(get.Call.Args[1], nil) {
-		if call, isCall := v.(*ssa.Call); isCall {
-			if sf := call.Common().StaticCallee(); sf != nil && sf.Blocks != nil && sf.Pkg != nil && c.isOurs(sf.Pkg.Pkg) {
-				c.Examined(sf)
-				for _, ret := range returnsOf(sf) {
-					roots = append(roots, ret.Results...)
-				}
-			}
-		}
-	}
-	locIn := func(v ssa.Value, stopAt *ssa.Call) bool {
-		for x := range backSlice(v, func(v ssa.Value) bool { c2, isC := v.(*ssa.Call); return isC && c2 != stopAt && isBuiltinCall(v, "append") == nil }) {
-			if fa, isFA := x.(*ssa.FieldAddr); isFA && fieldOf(fa) == fLoc {
-				return true
-			}
-			if p, isP := x.(*ssa.Parameter); isP {
-				if at, isArr := p.Type().Underlying().(*types.Array); isArr && at.Len() == 2 {
-					return true // the [2]byte location id handed to a helper
-				}
-			}
-		}
-		return false
-	}
-	for _, root := range roots {
-		for v := range backSlice(root, nil) {
-			call, isCall := v.(*ssa.Call)
-			if !isCall {
-				continue
-			}
-			f := calleeOf(call.Common())
-			if f == nil || f.Pkg() == nil || f.Pkg().Path() != "fmt" || f.Name() != "Sprintf" {
-				continue
-			}
-			format, isS := stringConst(call.Call.Args[0])
-			if !isS {
-				continue
-			}
-			fixed := true
-			for i := 0; i < len(format); i++ {
-				if format[i] != '%' {
-					continue
-				}
-				j := i + 1
-				spec := ""
-				for j < len(format) && (format[j] == '.' || (format[j] >= '0' && format[j] <= '9') || format[j] == '-' || format[j] == '+' || format[j] == '#' || format[j] == ' ') {
-					spec += string(format[j])
-					j++
-				}
-				if j < len(format) {
-					verb := format[j]
-					if verb != 's' && verb != '%' && spec == "" {
-						fixed = false
-					}
-				}
-				i = j
-			}
-			hasLoc := locIn(call, call)
-			if hasLoc {
-				ok = fixed
-				detail = fmt.Sprintf("Sprintf format %q: every numeric verb has a fixed width: %v; location id among the arguments", format, fixed)
-			}
-		}
-	}
-	if !ok && strings.HasPrefix(detail, "the key is not built") {
-		for _, root := range roots {
-			for v := range backSlice(root, nil) {
-				if cv, isC := v.(*ssa.Convert); isC && locIn(cv.X, nil) {
-					if _, isStr := cv.Type().Underlying().(*types.Basic); isStr {
-						ok = true
-						detail = "location bytes placed in the key as raw bytes"
-					}
-				}
-			}
-		}
-	}
-	c.Check(rule, fnName(serve)+"|locations-cannot-collide-in-the-key", ok, get.Pos(), detail)
+	cacheKeyInjective(c, "C04.cache-key")
 }
